@@ -227,6 +227,11 @@ func genC06Strlen(r *plan.Rng) *plan.Plan {
 		{"g25 := \"abcdef\" + \"gh\"[0:R % 3]", "g25b := g25 + char(56000)", "g25c := g25 + 'z'", "g25d := g25 + '€'", "g25e := char(57343) + g25"},
 		{"g26 := \"0123456789abcdefghij\"", "g26b := {abcdefghijklmnopqrstuvwxyz: 1}", "g26c := `raw 0123456789abcdefghijklmnopqrstuvwxyz0123456789abcdefghijklmnopqrstuvwxyz`"},
 		{"g27 := string(time(n))", "g27b := format(\"%v\", time(n))", "g27c := \"t\" + time(n)", "g27d := string(error(time(n)))"},
+		{"g28 := format(\"%q\", \"a\\\"b\\\"c\\\"\")", "g28b := format(\"%q\", \"t\\tn\\n\")", "g28c := format(\"%+q\", str)", "g28d := format(\"%q\", bytes(\"\\x00\\x01\\x02\"))", "g28e := format(\"%#q\", \"back`tick\")", "g28f := format(\"%q\", str[0:2])"},
+		{"g29 := format(\"%+q\", str + str)", "g29b := format(\"x%q\", \"\\\\\\\\\")", "g29c := format(\"%q%q\", \"\\\"\", \"\\\"\")", "g29d := format(\"%+q\", chr + 200)"},
+		{"g30 := format(\"%q\", \"\\\"\\\"\\\"\\\"\\\"\\\"\")", "g30z := 1"},
+		{"q31 := \"\"", "for i := 0; i < R * 7; i++ {", "	q31 += \"\\\"\"", "}", "g31 := format(\"%q\", q31)"},
+		{"q32 := \"\"", "for i := 0; i < R * 3; i++ {", "	q32 += \"é\\n\"", "}", "g32 := format(\"%+q\", q32)", "g32b := format(\"%q\", bytes(q32))"},
 		{"g14 := string(n * 1000000) + string(fl) + string(true) + string(undefined)", "g14b := format(\"%t|%c|%U\", true, chr, chr)"},
 	}
 	n := r.Range(1, 3)
